@@ -231,3 +231,67 @@ def r06_7_memo_keys(ctx: Ctx) -> RuleResult:
         else:
             rr.ok({"memo": mt.fn.qual, "table": mt.table, "key": mt.store_key[:80]})
     return rr
+
+
+# shared with C02: zone rules anchored on 29 February must use the calendar's leap predicate (home id R02.5)
+from .c02 import r02_5_leap_decisions as _r02_5  # noqa: E402
+
+rule("C06")(_r02_5)
+
+
+@rule("C06")
+def r06_8_fixed_zone_ids(ctx: Ctx) -> RuleResult:
+    """A fixed-offset zone has one canonical id per offset ("UTC", "UTC+05", "UTC+05:30" ...), which the constructor derives from
+    the offset when no id is given; only the decoder of zone data (`read`) may supply an explicit id (tz data names fixed zones
+    such as "Etc/GMT+5").  Any other construction with an explicit id - e.g. the spelling a user asked for - gives two unequal
+    zones for one offset and breaks `for_offset(...)`/`utc` identity."""
+    from ..kit import bind_args
+
+    rr = RuleResult("R06.8", "fixed zones are constructed with an explicit id only by the zone-data decoder; every other site lets the constructor derive the canonical id from the offset", min_instances=4)
+    M = ctx.M
+    c = M.cls("_FixedDateTimeZone")
+    init = M.find_method(c, "__init__")
+    for f in sorted(set(M.func_of_node.values()), key=lambda x: x.qual):
+        if isinstance(f.node, ast.Lambda):
+            continue
+        for n in own_nodes(f.node):
+            if not isinstance(n, ast.Call):
+                continue
+            fn = unparse(n.func)
+            if not (fn == "_FixedDateTimeZone" or (fn == "cls" and f.cls is c)):
+                continue
+            rr.inst()
+            b = bind_args(n, init)
+            if "id_" in b and not (isinstance(b["id_"], ast.Constant) and b["id_"].value is None):
+                if f.cls is c and f.name == "read":
+                    rr.ok({"site": f.qual, "id": "read from zone data"})
+                else:
+                    rr.fail(f.qual, f"`{unparse(n)[:70]}` gives the fixed zone the explicit id `{unparse(b['id_'])}`: only the zone-data decoder may do that, everything else must get the canonical id derived from the offset", ctx.loc(f, n))
+            else:
+                rr.ok({"site": f.qual, "id": "derived from the offset"})
+    return rr
+
+
+@rule("C06")
+def r06_9_optional_collection_guards(ctx: Ctx) -> RuleResult:
+    """`if X: for v in Y: ...` where the `if` exists only to skip an optional collection: X must be Y.  Guarding the loop over one
+    optional section of the zone data with the presence of *another* section iterates over None (TypeError) for files that have
+    one section but not the other."""
+    rr = RuleResult("R06.9", "an `if` that only guards a loop over an optional collection tests that same collection", min_instances=2)
+    for f in sorted(set(ctx.M.func_of_node.values()), key=lambda x: x.qual):
+        if isinstance(f.node, ast.Lambda) or "_compatibility" in f.mod.rel:
+            continue
+        for n in own_nodes(f.node):
+            if isinstance(n, ast.If) and len(n.body) == 1 and isinstance(n.body[0], ast.For) and not n.orelse:
+                t = n.test
+                if isinstance(t, ast.Compare) and len(t.ops) == 1 and isinstance(t.ops[0], ast.IsNot):
+                    t = t.left
+                if not isinstance(t, (ast.Name, ast.Attribute)):
+                    continue
+                rr.inst()
+                it = n.body[0].iter
+                if unparse(t) == unparse(it) or unparse(t) in unparse(it):
+                    rr.ok({"fn": f.qual, "collection": unparse(t)})
+                else:
+                    rr.fail(f.qual, f"the loop over `{unparse(it)}` is guarded by `{unparse(n.test)}`, a different collection: when only one of the two is present the loop runs over a missing section (or is skipped although there is data)", ctx.loc(f, n))
+    return rr
